@@ -419,6 +419,7 @@ func run(cfg *hx.RunCfg) (*hx.Result, error) {
 	defer os.RemoveAll(tmp)
 
 	var todo []wlInput
+	var siteErr error
 	if cfg.Replay != "" {
 		raw, err := os.ReadFile(cfg.Replay)
 		if err != nil {
@@ -437,7 +438,10 @@ func run(cfg *hx.RunCfg) (*hx.Result, error) {
 	}
 	if cfg.Replay == "" || len(todo) == 0 {
 		if err := siteCases(res, root, repo, tmp); err != nil {
-			return nil, err
+			// the tie is broken (the driver reports that from its own translator run); the race workloads below
+			// are still run against the tree, because they are the search for a concrete failing input
+			siteErr = err
+			res.Notes = append(res.Notes, "site table unavailable: "+err.Error())
 		}
 	}
 	if cfg.Replay == "" {
@@ -451,6 +455,9 @@ func run(cfg *hx.RunCfg) (*hx.Result, error) {
 		for _, in := range todo {
 			runWorkload(res, bin, tmp, in)
 		}
+	}
+	if siteErr != nil && len(res.OracleFailures) == 0 {
+		return nil, siteErr
 	}
 	return res, nil
 }
